@@ -249,11 +249,12 @@ class Ctx:
                 viol.append(f)
         for kid, (k, n) in sorted(known_hits.items()):
             print("KNOWN-FINDING: property=%s %s [%s; %d failing case(s) this run]" % (self.pid, k["what"], kid, n))
-        os.makedirs(REPLAY, exist_ok=True)
+        replay_dir = REPLAY if not os.environ.get("VERIF_EVIDENCE_SKIP") else os.path.join(ROOT, ".work", "replay-scratch")
+        os.makedirs(replay_dir, exist_ok=True)
         # stale replay files of this property
-        for fn in os.listdir(REPLAY):
+        for fn in os.listdir(replay_dir):
             if fn.startswith(self.pid + "-"):
-                os.remove(os.path.join(REPLAY, fn))
+                os.remove(os.path.join(replay_dir, fn))
         shown = 0
         by_sig = {}
         for f in viol:
@@ -261,7 +262,7 @@ class Ctx:
         for (clause, sig), fs in sorted(by_sig.items(), key=lambda kv: str(kv[0])):
             f = fs[0]
             shown += 1
-            path = os.path.join(REPLAY, "%s-%d.json" % (self.pid, shown))
+            path = os.path.join(replay_dir, "%s-%d.json" % (self.pid, shown))
             with open(path, "w") as fh:
                 json.dump({"property": self.pid, "clause": clause, "signature": sig, "count": len(fs),
                            "case": f}, fh, indent=1, default=str)
@@ -290,8 +291,11 @@ class Ctx:
             "wall_s": round(time.time() - self.t0, 1),
             "violations": len(viol),
         }
-        os.makedirs(EVID, exist_ok=True)
-        with open(os.path.join(EVID, self.pid + ".json"), "w") as fh:
+        evdir = EVID
+        if os.environ.get("VERIF_EVIDENCE_SKIP"):        # runs against a deliberately broken tree (bin/seedtest)
+            evdir = os.path.join(ROOT, ".work", "evidence-scratch")
+        os.makedirs(evdir, exist_ok=True)
+        with open(os.path.join(evdir, self.pid + ".json"), "w") as fh:
             json.dump(ev, fh, indent=1, default=str)
         if not os.environ.get("VERIF_KEEP"):
             shutil.rmtree(self.work, ignore_errors=True)
